@@ -1,3 +1,147 @@
-import DnsModel.Script
+/-
+  C11 — Deleting records while iterating is safe, exact and terminates.
+
+  The cursor protocol (a cursor left void by `delete` restarts from the section start with the
+  current count; a live cursor advances) on a pointer-free packet object refines the abstract machine
+  `absWalk` on the list of the section's records (Lemmas/DeleteWalk.lean: `delWalk_refines`, built on
+  `PlainObj.delete_at`, `next_some`, `next_none`); the statements of C11 are then facts about lists
+  (Lemmas/AbsWalk.lean).
+
+  Proved here for every plain object (what decompression / `recompute` / synthesis + insertion leave:
+  `plainObj_of_output`, `insert_*`), the three record sections, every stream of choices:
+  `walk_delete`, `second_delete`, `emptied_absent`, `still_accepted`.
+  Not covered by a theorem (correspondence only): the very first deletion on a still-compressed object
+  (decompress-then-translate step), the question section (KF1), and the OPT-skipping walk over an
+  additional section that holds an OPT record.
+-/
+import DnsModel.Lemmas.DeleteWalk
+import DnsModel.Theorems.C02
+import DnsModel.Theorems.C05
 namespace Dns.C11
+open Dns Res
+
+/-- steps that suffice for a section of `n` records -/
+def fuelFor (n : Nat) : Nat := (n + 1) * (n + 1) + n + 1
+
+/-- the records of a section, numbered so that equal records stay distinguishable -/
+def numbered (xs : List Bytes) : List (Bytes × Nat) := xs.zipIdx
+
+theorem numbered_nodup (xs : List Bytes) : (numbered xs).Nodup := by
+  have h : ((numbered xs).map Prod.snd).Nodup := by
+    unfold numbered
+    rw [List.zipIdx_map_snd]
+    exact List.nodup_range' 1
+  unfold List.Nodup at h ⊢
+  rw [List.pairwise_map] at h
+  exact h.imp (fun hne heq => hne (by rw [heq]))
+
+/-- **C11** for a plain object, a record section `sec`, the public walk (`next`, OPT-skipping, for the
+answer and authority sections; the OPT-including walk for all three) and any stream of choices:
+the walk-and-delete run terminates without error or panic; there is a run `r` of the abstract
+machine over the numbered records such that the walker yields exactly the records the machine
+yields; afterwards the section holds exactly what the machine left — a sublist of the original
+(survivors in their original order), the deleted ones plus the survivors being the original
+records; a deleted record is never yielded again and is not left; every survivor was yielded (and
+kept) at least once; the other sections, the question and the other header fields are untouched; the
+result is again a plain object (count matches, see `emptied_absent`, `still_accepted`). -/
+theorem walk_delete {pp : PP} (P : PlainObj pp) (sec : Section) (hs : sec.isRec = true)
+    (step : PP → Cursor → Res (Option Cursor))
+    (hstep : step = nextIncludingOpt ∨ (step = nextSkippingOpt ∧ sec ≠ .additional))
+    (choose : Nat → Bool) (c : Cursor) (hc : c.sec = sec) (hv : c.offset = none) :
+    ∃ (pp' : PP) (P' : PlainObj pp') (r : List (Bytes × Nat) × List ((Bytes × Nat) × Bool)),
+      absWalk choose (fuelFor (P.lst sec).length) 0 (numbered (P.lst sec)) 0 = some r ∧
+      delWalk step choose (fuelFor (P.lst sec).length) 0 pp c = .ok (pp', r.2.map (fun e => (e.1.1, e.2))) ∧
+      P'.lst sec = r.1.map (·.1) ∧ r.1.Sublist (numbered (P.lst sec)) ∧
+      (((r.2.filter (·.2)).map (·.1)) ++ r.1).Perm (numbered (P.lst sec)) ∧
+      (∀ l1 l2 a, r.2 = l1 ++ (a, true) :: l2 → a ∉ l2.map (·.1) ∧ a ∉ r.1) ∧
+      (∀ a ∈ r.1, (a, false) ∈ r.2) ∧
+      (∀ s, s ≠ sec → P'.lst s = P.lst s) ∧ P'.qls = P.qls ∧ P'.q4 = P.q4 ∧
+      (∀ i, (i + 1 < sectionCountOffset sec ∨ sectionCountOffset sec + 1 < i) → get16 P'.hdr i = get16 P.hdr i) := by
+  have hlen : (numbered (P.lst sec)).length = (P.lst sec).length := by simp [numbered]
+  have hterm := absWalk_terminates choose (fuelFor (P.lst sec).length) 0 (numbered (P.lst sec)) 0
+    (by rw [hlen]; unfold fuelFor; omega)
+  obtain ⟨r, hr⟩ := Option.isSome_iff_exists.1 hterm
+  have hmap := absWalk_map Prod.fst choose (fuelFor (P.lst sec).length) 0 (numbered (P.lst sec)) 0
+  have hfst : (numbered (P.lst sec)).map Prod.fst = P.lst sec := by simp [numbered]
+  rw [hfst, hr] at hmap
+  simp only [Option.map_some] at hmap
+  have hstep' : ∀ (pp : PP) (P : PlainObj pp) (c : Cursor) (j : Nat), CurAt P sec j c → step pp c = nextIncludingOpt pp c := by
+    intro pp P c j h
+    rcases hstep with rfl | ⟨rfl, hna⟩
+    · rfl
+    · exact nextSkip_eq_incl P sec hs hna c j h
+  obtain ⟨pp', P', hw, f1, f2, f3, f4, f5⟩ :=
+    delWalk_refines sec hs step hstep' choose _ 0 pp P c 0 ⟨hc, Or.inl ⟨hv, rfl⟩⟩ _ hmap
+  obtain ⟨s1, _⟩ := absWalk_sublist choose _ _ _ _ _ hr
+  refine ⟨pp', P', r, hr, hw, f1, s1, absWalk_perm choose _ _ _ _ _ hr,
+    absWalk_deleted_gone choose _ _ _ _ _ (numbered_nodup _) hr, ?_, f2, f3, f4, f5⟩
+  intro a ha
+  rcases absWalk_yields_survivors choose _ _ _ _ _ hr a ha with h0 | h1
+  · simp at h0
+  · exact h1
+
+/-- **a second deletion through the same cursor** reports a void record and touches nothing -/
+theorem second_delete {pp : PP} (P : PlainObj pp) (sec : Section) (hs : sec.isRec = true) {ps1 ps2 : List Bytes} {rc : Bytes}
+    (hsplit : P.lst sec = ps1 ++ rc :: ps2) (c : Cursor) {ne : Nat} {ob oa : Bool}
+    (hr : RRAtPos pp.packet sec ⟨P.start sec + ps1.flatten.length, ne, P.start sec + ps1.flatten.length + rc.length⟩ ob oa)
+    (hoff : c.offset = some (P.start sec + ps1.flatten.length))
+    (hnext : c.offsetNext = P.start sec + ps1.flatten.length + rc.length) (hne : c.nameEnd = ne) :
+    ∃ st, deleteRR pp c = .ok st ∧ st.result = none ∧
+      deleteRR st.pp st.cur = .ok { pp := st.pp, cur := st.cur, result := some .voidRecord } := by
+  obtain ⟨pp', P', hdel, _⟩ := P.delete_at sec hs hsplit c hr hoff hnext hne
+  exact ⟨_, hdel, rfl, delete_void _ _ rfl⟩
+
+/-- deleting through a void cursor (nothing yielded yet, or already deleted) never touches anything -/
+theorem delete_void_untouched (pp : PP) (c : Cursor) (h : c.offset = none) :
+    deleteRR pp c = .ok { pp := pp, cur := c, result := some .voidRecord } := delete_void pp c h
+
+/-- **count and presence**: in a plain object (hence after every walk of `walk_delete`) the header count
+of each record section is its number of records, and the section start is absent exactly when the
+section is empty -/
+theorem emptied_absent {pp : PP} (P : PlainObj pp) :
+    get16 (pp.packet.take 12) 6 = (P.lst .answer).length ∧ get16 (pp.packet.take 12) 8 = (P.lst .nameServers).length ∧
+    get16 (pp.packet.take 12) 10 = (P.lst .additional).length ∧
+    (pp.offsetAnswers = none ↔ P.lst .answer = []) ∧ (pp.offsetNameservers = none ↔ P.lst .nameServers = []) ∧
+    (pp.offsetAdditional = none ↔ P.lst .additional = []) := by
+  have e : pp.packet.take 12 = P.hdr := by
+    rw [P.bytes]
+    simp only [List.append_assoc]
+    rw [List.take_append_of_le_length (by rw [P.hh]; omega), List.take_of_length_le (by rw [P.hh]; omega)]
+  rw [e]
+  refine ⟨P.hca, P.hcn, P.hcr, ?_, ?_, ?_⟩
+  · rw [P.oa]; simp only [PlainObj.lst]
+    cases P.A <;> simp
+  · rw [P.on]; simp only [PlainObj.lst]
+    cases P.N <;> simp
+  · rw [P.oR]; simp only [PlainObj.lst]
+    cases P.R <;> simp
+
+/-- a plain object's bytes are accepted by the parser, and the parser reports the section starts the
+object holds -/
+theorem still_accepted {pp : PP} (P : PlainObj pp) :
+    ∃ v, parse pp.packet = .ok v ∧ v.offsetQuestion = pp.offsetQuestion ∧ v.offsetAnswers = pp.offsetAnswers ∧
+      v.offsetNameservers = pp.offsetNameservers ∧ v.offsetAdditional = pp.offsetAdditional := by
+  obtain ⟨v, hv⟩ := C02.wf_accepted _ P.wf
+  have hv' := hv
+  rw [P.bytes] at hv'
+  obtain ⟨v1, v2, v3, v4⟩ := view_of_assembled P.hdr P.q4 P.qls P.A P.N P.R P.o2 P.o3 P.o4 P.hh P.hqd P.hgq P.hq4 P.hcl
+    P.hA P.hN P.hR P.hca P.hcn P.hcr P.hqr hv'
+  exact ⟨v, hv, by rw [v1, P.oq], by rw [v2, P.oa], by rw [v3, P.on], by rw [v4, P.oR]⟩
+
+/-- **where plain objects come from**: decompressing (or `recompute`-ing) any accepted packet leaves a
+plain object whose sections are the canonical forms of the packet's records — so the theorems above
+are about every message the parser accepts -/
+theorem plain_of_accepted {p : Bytes} {v : View} (h : parse p = .ok v) (pp0 : PP) :
+    ∃ (L : C03.Layout p) (o : C05.Output p L) (v2 : View), uncompress p = .ok o.bytes ∧ parse o.bytes = .ok v2 ∧
+      ∃ P : PlainObj (pp0.rebased o.bytes v2), P.lst .answer = o.pa ∧ P.lst .nameServers = o.pn ∧ P.lst .additional = o.pr := by
+  obtain ⟨L, o, hu⟩ := C05.decompress_ok h
+  obtain ⟨v2, h2⟩ := C05.decompressed_accepted h hu
+  obtain ⟨P, e1, e2, e3, _⟩ := plainObj_of_output h o h2 pp0
+  exact ⟨L, o, v2, hu, h2, P, e1, e2, e3⟩
+
+/-- the hypotheses are satisfiable and the machine does what one expects on a small case:
+three records, the first and the third chosen -/
+example : absWalk (fun k => k == 0 || k == 2) (fuelFor 3) 0 [10, 20, 30] 0 =
+    some ([20], [(10, true), (20, false), (30, true), (20, false)]) := by decide
+
 end Dns.C11
